@@ -848,7 +848,7 @@ def _container_shape(r, lib, b, is_object):
     for style in STYLES:
         sp = "" if style == "Consise" else " "
         member = ("IK:" + sp + "V") if is_object else "IV"
-        for k in (0, 1, 2, 3):
+        for k in (range(0, 7) if common.TIER == "thorough" else (0, 1, 2, 3)):
             key = "%s/grammar[%s,%d]" % (nm, style, k)
             toks, why = _container_tokens(lib, b, is_object, style, k, nullv)
             if toks is None:
@@ -1584,7 +1584,7 @@ def text_rows(rep, lib):
         pr = Prov(pl, common.LOOK + ("Deref>::deref", "DerefMut>::deref_mut", "RefCell::<T>::borrow_mut") + BYTES_OF)
         prints = _printer_buffers(pl, pr)
         enumerated = "Option<(usize," in nxt[0].dest.get("ty", "").replace(" ", "")
-        for k in (1, 2, 3):
+        for k in (range(1, 7) if common.TIER == "thorough" else (1, 2, 3)):
             selfv = [None] * nfields
             selfv[li] = ("i", k)
             toks = []
